@@ -203,7 +203,7 @@ def run(
         "java",
         f"-Xms{heap}",
         f"-Xmx{heap}",
-        "-Xss16m",
+        "-Xss512m",
         "-XX:+UseSerialGC",
     ]
     for k, v in (props or {}).items():
